@@ -9,7 +9,7 @@ import driver
 from props import c16r
 
 PROPERTIES_FILE = "Properties/Properties_C16.v"
-COQ_DEPS = ["Proofs/SrcLife_phase_proofs.vo", "Proofs/SrcLife_proofs.vo", "Proofs/SrcLifeR_proofs.vo"]
+COQ_DEPS = ["Proofs/SrcLife_phase_proofs.vo", "Proofs/SrcLife_proofs.vo", "Proofs/SrcLife_mon_proofs.vo", "Proofs/SrcLifeR_proofs.vo"]
 GEN_MODULES = ["Gen_srclife"]
 LEVEL = "proof"
 COQ_TIMEOUT = 1500
